@@ -175,6 +175,12 @@ pub fn extra_programs() -> Vec<Program> {
         "C0 C M Ks R[Z Ks Kc]",
         "C0 Kb",
         "C Cd Cd Kb M Kd R[Z M Kc]",
+        // exactly one `x + x` constraint each: a second one would be broken on the honest side by
+        // the very change (equal neighbours merged) that the halved constant is meant to expose
+        "Kw Kd",
+        "C M Kw Kd",
+        "C C M R[Z A Kw Kc]",
+        "C Xww Ko",
     ]
     .iter()
     .map(|s| Program::parse(s).expect("extra program"))
